@@ -2024,7 +2024,9 @@ def dask_groupby_agg(
                     "method='blockwise' with reindex=False requires the group labels to be a numpy array."
                 )
             slices = slices_from_chunks(tuple(array.chunks[ax] for ax in axis))
-            groups_in_block = tuple(_unique(by_input[slc]) for slc in slices)
+            # the labels of a block, in the order in which the block's own reduction yields them
+            labels_of = _unique if sort else (lambda labels: pd.unique(labels.reshape(-1)))
+            groups_in_block = tuple(labels_of(by_input[slc]) for slc in slices)
             groups = (np.concatenate(groups_in_block),)
             ngroups_per_block = tuple(len(grp) for grp in groups_in_block)
             group_chunks = (ngroups_per_block,)
